@@ -46,7 +46,8 @@ type reader struct {
 //
 // Sort order is determined using the following rules:
 //   - for sam.QueryName the LessByName sam.Record method is used.
-//   - for sam.Coordinate the LessByCoordinate sam.Record method is used.
+//   - for sam.Coordinate the LessByCoordinate sam.Record method is used
+//     with the references of the merged header.
 //   - for sam.Unsorted the reader streams are concatenated.
 //   - for sam.Unknown the provided less function is used - if nil
 //     this is the same as sam.Unsorted.
@@ -108,6 +109,9 @@ func NewMerger(less func(a, b *sam.Record) bool, src ...*Reader) (*Merger, error
 		for _, r := range m.readers {
 			switch {
 			case r.err == nil:
+				// Heads are compared by the references of
+				// the merged header.
+				m.reassignReference(r.id, r.head)
 				live = append(live, r)
 			case r.err != io.EOF:
 				return nil, r.err
@@ -166,13 +170,13 @@ func (m *Merger) nextBySortOrder() (rec *sam.Record, err error) {
 	reader.head, reader.err = reader.r.Read()
 	switch {
 	case reader.err == nil:
+		m.reassignReference(reader.id, reader.head)
 		m.push(reader)
 	case reader.err != io.EOF:
 		// rec was read successfully, so return it now and
 		// report the failure of its source on the next call.
 		m.err = reader.err
 	}
-	m.reassignReference(reader.id, rec)
 	return rec, nil
 }
 
